@@ -45,7 +45,7 @@ void harness(void)
 		}
 	}
 	CHECK(done, "C13: the chain ends within len/3 headers");
-	CHECK((ok != 0) == (ok_ref != 0), "C12: accepted exactly when every chained header is complete, >= 3 bytes and within the packed size");
+	CHECK((ok != 0) == (ok_ref != 0), "C05/C12: accepted exactly when every chained header is complete, >= 3 bytes and within the packed size");
 	if (ok) {
 		CHECK(h->raw_data_len == BASE + total && st_pos == total, "C05: raw header grown by the chained headers; member data follows immediately");
 		CHECK(h->compressed_length == clen - total, "C05: extended-header bytes subtracted from the packed size");
